@@ -415,9 +415,9 @@ theorem C07_wrapOpts_para_placeholder_default (sep : List Int) (h : (0x41 : Int)
   Ctx.placeholder_eq_phA cxA h
 
 /-- the witnesses of D18 keep their text: `"x\n\ny"` with the line separator `"A"` (the whole
-paragraph separator is the suffix of the first paragraph: stand-in `B`), `"bx\n\ny"` with `"xA"`,
-and a paragraph separator with two-sided affixes, `"x<A>\n<B>y"` with `"\n"` → stand-in `A`, with
-`"A\n"`… here: line separator `"AB"`, stand-in `C` -/
+paragraph separator `"\n\n"` shares a line with the first paragraph, which is padded with two
+stand-ins `B`), `"bx\n\ny"` with the line separator `"xA"` (stand-in `B`), `"x\n\nyz"` with the
+line separator `"AB"` (stand-in `C`) -/
 theorem C07_wrapOpts_para_D18_witness :
     (Editor.wrapOpts cxA (.root [0x78, 0x0A, 0x0A, 0x79] {}) 20
         { preservePara := true, lineSep := [0x41] }).map Editor.text =
